@@ -35,7 +35,7 @@ BAD = ["random", "short_body", "nontext_body", "no_separators", "nonhex_type", "
        # not a Midea reply at all
        "xml_nul_padded", "xml_trailing_garbage", "xml_leading_space", "xml_bom", "ssdp_text", "json_text", "html_text",
        "zero_length", "one_byte_marker", "xml_entity", "v3_header_only", "huge",
-       "xml_unknown_encoding", "xml_utf16_label", "xml_ebcdic_label", "xml_pi_only"]
+       "xml_unknown_encoding", "xml_utf16_label", "xml_ebcdic_label", "xml_pi_only", "xml_open_port"]
 
 
 def bad_reply(kind, h, seed):
@@ -62,6 +62,9 @@ def bad_reply(kind, h, seed):
         return b""
     if kind == "one_byte_marker":
         return bytes([0x5A if seed % 2 else 0x83])
+    if kind == "xml_open_port":
+        # an old (V1) unit: its TCP port accepts the connection and then says nothing (the library waits 8 s)
+        return b'<a><body><device port="7777"/></body></a>'
     if kind == "xml_unknown_encoding":
         return b'<?xml version="1.0" encoding="x-vendor-8bit"?><a><body><device port="6444"/></body></a>'
     if kind == "xml_utf16_label":
@@ -109,8 +112,24 @@ def bad_reply(kind, h, seed):
     return codec.discovery_reply_v2(h["device_id"], body)
 
 
+class _Silent:
+    """A TCP server that accepts and never says anything."""
+
+    def connect_policy(self, net, host, port):
+        return "accept", 1 / 1024
+
+    def on_connect(self, conn):
+        pass
+
+    def on_data(self, conn, data):
+        pass
+
+    def on_client_close(self, conn):
+        pass
+
+
 def run(plan):
-    w = World(seed=plan.get("seed", 0), max_iterations=8000)
+    w = World(seed=plan.get("seed", 0), max_iterations=8000 + 400 * len(plan["hosts"]))
     res = Result()
     good_in_window = set()
     delivered = 0
@@ -139,6 +158,8 @@ def run(plan):
             w.fire("udp_dup", len(h["copies"]) - 1)
         if h["cls"] != "good":
             w.fire("udp_bad_reply[" + h["cls"] + "]")
+        if h["cls"] == "xml_open_port":
+            w.net.listen(h["ip"], 7777, _Silent())
         rh = RefHost(h["ip"], replies)
         if plan.get("single") is not None and hi != plan["single"]:
             rh.chatty = True           # talks to the prober although only the target was probed
@@ -179,7 +200,11 @@ def run(plan):
             elif o.value is not None and (not want or o.value.ip != target["ip"]):
                 res.fail("a host without a good reply inside the window was reported", f"discover_single -> {o.value.ip}")
             return
-        o = await capture(w, D.discover(auto_connect=auto))
+        kw = {}
+        if plan.get("target"):
+            kw["target"] = plan["target"]         # a directed broadcast instead of the limited one
+            w.fire("directed_broadcast_target")
+        o = await capture(w, D.discover(auto_connect=auto, **kw))
         if o.kind != "ok":
             res.fail(f"discover raised {o.exc_type}", f"classes {[h['cls'] for h in plan['hosts']]}: {o.exc!r}")
             return
@@ -294,6 +319,8 @@ def space(tier):
                 # the host's one and only reply is handled in the very loop iteration in which the window ends
                 h["copies"] = [[5.0 + rng.choice([-1, 0, 0, 0]) / (1 << 20), rng.choice([6445, 20086])]]
         p = {"hosts": hosts, "twice": rng.random() < 0.3}
+        if rng.random() < 0.1:
+            p["target"] = rng.choice(["192.168.255.255", "10.255.255.255", "192.168.1.255"])
         for h in hosts:
             if h["cls"] == "good" and rng.random() < 0.2:
                 for cp in h["copies"]:
@@ -333,6 +360,22 @@ def space(tier):
         for i, h in enumerate(hosts):
             h["copies"] = [[times[i], 6445]]
         return {"hosts": hosts}
+    def crowd(j, rng):
+        # many hosts at once: a crowd of slow old units (their queries stay pending for 8 s), other bad repliers, and
+        # good hosts whose first reply arrives while those queries are pending
+        n_slow = rng.choice([5, 15, 16, 17, 20, 30])
+        n_good = rng.randint(2, 6)
+        classes = ["xml_open_port"] * n_slow + ["good"] * n_good + [rng.choice(BAD) for _ in range(rng.randint(0, 3))]
+        hosts = mk_hosts(rng, classes)
+        for i, h in enumerate(hosts):
+            h["ip"] = f"192.168.{7 + i // 200}.{10 + i % 200}"
+            if h["cls"] == "good":
+                h["inner_ip"] = h["ip"]
+                h["copies"] = [[rng.choice([0.5, 1.0, 2.0, 4.0]), 6445]]
+            else:
+                h["copies"] = [[rng.choice([0.01, 0.05, 0.2]), rng.choice([6445, 20086])]]
+        return {"hosts": hosts}
+    sp.add("crowds_with_slow_old_units", 60 if tier == "quick" else 3000, crowd)
     sp.add("each_bad_class", len(BAD) * 3 * (2 if tier == "quick" else 40), each_bad, exhaustive=True)
     return sp
 
